@@ -23,6 +23,7 @@ structure Level where
   macros : List (Nat × Nat)        -- (node, level id)
   ui : List (Nat × Nat)            -- (node, macro input index)
   vlink : List (Nat × Nat × Nat)   -- (node, slot, macro input index)
+  preset : List (Nat × Nat)        -- value-linked inputs (node, slot) assigned DIRECTLY before the first run
   outNode : Nat
   sched : List Tok
   sched2 : List Tok
@@ -220,6 +221,21 @@ def assign (ls : List Level) (cut : Option (Nat × Nat × Nat)) :
 
 /-! ### rendering: macro terms are expanded through the sub-graph, macro inputs substituted -/
 
+/-- is macro input `k` of level `lid` ever assigned while the graph runs (a connection above it is fetched, or the
+link chain above it ends in one)?  Only then does the value link push a value onto the child input. -/
+partial def pushed (st : DSt) (lid k : Nat) : Bool :=
+  match st.levels.filterMap (fun p => (p.macros.find? (·.2 == lid)).map fun (m, _) => (p, m)) with
+  | [] => false
+  | (p, m) :: _ =>
+    let connected := !(((p.f.slots.getD m []).getD k []).isEmpty)
+    match p.vlink.find? (fun (x : Nat × Nat × Nat) => x.1 == m && x.2.1 == k) with
+    | some (_, _, k') => connected || pushed st p.id k'
+    | none => connected
+
+/-- what a value-linked input holds: the macro input's value, unless it was assigned directly and nothing pushes -/
+def linked (st : DSt) (l : Level) (g idx k : Nat) (env : List String) : String :=
+  if l.preset.contains (g, idx) && !pushed st l.id k then "p" else env.getD k "?"
+
 structure View where
   st : DSt
   outs : Nat → Nat → Val           -- level id ↦ node ↦ output
@@ -242,7 +258,7 @@ partial def showExp (v : View) (lid : Nat) (env : List String) : Val → String
         | some (_, lid2) =>
           let env2 := (List.range args.length).map fun idx =>
             match l.vlink.find? (fun (x : Nat × Nat × Nat) => x.1 == g && x.2.1 == idx) with
-            | some (_, _, k) => env.getD k "?"
+            | some (_, _, k) => linked v.st l g idx k env
             | none => showExp v lid env (args.getD idx .nd)
           match findLevel v.st.levels lid2 with
           | none => "?"
@@ -250,7 +266,7 @@ partial def showExp (v : View) (lid : Nat) (env : List String) : Val → String
         | none =>
           let rendered := (List.range args.length).map fun idx =>
             match l.vlink.find? (fun (x : Nat × Nat × Nat) => x.1 == g && x.2.1 == idx) with
-            | some (_, _, k) => env.getD k "?"
+            | some (_, _, k) => linked v.st l g idx k env
             | none =>
               match args.getD idx .nd with
               | .d => if dirty && v.st.dirty.contains g then "e" else "d"
@@ -269,7 +285,7 @@ partial def envOf (v : View) (lid : Nat) : List String :=
     | some pl =>
       (List.range args.length).map fun idx =>
         match pl.vlink.find? (fun (x : Nat × Nat × Nat) => x.1 == g && x.2.1 == idx) with
-        | some (_, _, k) => penv.getD k "?"
+        | some (_, _, k) => linked v.st pl g idx k penv
         | none => showExp v plid penv (args.getD idx .nd)
 
 def showSt : Exec.St → String
@@ -315,10 +331,14 @@ partial def selfInvalid (st : DSt) (lid : Nat) : Bool :=
   | some l => l.macros.any fun (p : Nat × Nat) =>
       (l.f.slots.getD p.1 []).any (fun cs => !cs.isEmpty) || selfInvalid st p.2
 
-def compSet (st : DSt) (l : Level) : Nat → Bool :=
+/-- `linkChanged i`: a value link of this level pushes a changed macro input onto an input of the (macro) child `i` —
+its inputs differ from the cached ones although no connection of this level says so -/
+def compSetL (st : DSt) (l : Level) (linkChanged : Nat → Bool) : Nat → Bool :=
   rerunSet st.rc l.isMacro (fun i => match l.macros.find? (·.1 == i) with
-    | some (_, lid2) => innerChanged st lid2 || (!st.keyAfterRun && selfInvalid st lid2)
+    | some (_, lid2) => innerChanged st lid2 || (!st.keyAfterRun && selfInvalid st lid2) || linkChanged i
     | none => false)
+
+def compSet (st : DSt) (l : Level) : Nat → Bool := compSetL st l (fun _ => false)
 
 def resumedDag (st : DSt) (c : LvlCut) : Dag :=
   let dl := reloadDag st.rc c.parent.isNone c.d
@@ -361,7 +381,9 @@ partial def resumeTree (st : DSt) (cuts : List LvlCut) (lid : Nat) (envChanged :
       l.vlink.any (fun (x : Nat × Nat × Nat) => x.1 == i && !l.isMacro i && envChanged.getD x.2.2 false)
     let runWith : List Nat → LvlRun := fun macroDirty =>
       let fx : Fix := { dirty := fun i => st.dirty.contains i || envDirty i || macroDirty.contains i, off := st.n }
-      let rs0 := resumeStart st (compSet st l) d2 c.s
+      let linkChanged : Nat → Bool := fun i =>
+        l.vlink.any (fun (x : Nat × Nat × Nat) => x.1 == i && l.isMacro i && envChanged.getD x.2.2 false)
+      let rs0 := resumeStart st (compSetL st l linkChanged) d2 c.s
       let (rs, fin) := drive (·.s) (rstepF (fun i => st.fails2.contains i) fx Cfg.repaired d2)
         (fun s _ => st.kbd2.any (fun i => s.st i == St.failed)) false (fuelOf l.f.n) rs0 l.sched2 0 0
       let below : List (Nat × Nat × List (Nat × RS × RS × String)) := l.macros.map fun (p : Nat × Nat) =>
@@ -582,7 +604,7 @@ def step' (s : DSt) (ws : List String) : DSt × List String :=
   | ["level", lid] => match lid.toNat? with
     | some lid =>
       ({ s with cur := some { id := lid, own := [], f := emptyFin s.n, down2 := List.replicate s.n [], starters2 := [],
-                               exec2 := List.replicate s.n false, macros := [], ui := [], vlink := [], outNode := 0,
+                               exec2 := List.replicate s.n false, macros := [], ui := [], vlink := [], preset := [], outNode := 0,
                                sched := [], sched2 := [], kbd := [], down3 := List.replicate s.n [], starters3 := [],
                                sched3 := [], cutT := 0, order := [] } }, [])
     | none => (s, ["bad-op"])
@@ -625,6 +647,9 @@ def step' (s : DSt) (ws : List String) : DSt × List String :=
     | _, _ => (s, ["bad-op"])
   | ["ui", g, k] => match g.toNat?, k.toNat? with
     | some g, some k => withCur s fun l => some { l with ui := l.ui ++ [(g, k)] }
+    | _, _ => (s, ["bad-op"])
+  | ["preset", g, sl] => match g.toNat?, sl.toNat? with
+    | some g, some sl => withCur s fun l => some { l with preset := l.preset ++ [(g, sl)] }
     | _, _ => (s, ["bad-op"])
   | ["vlink", g, sl, k] => match g.toNat?, sl.toNat?, k.toNat? with
     | some g, some sl, some k => withCur s fun l => some { l with vlink := l.vlink ++ [(g, sl, k)] }
